@@ -119,8 +119,9 @@ CLAIMED = {
              "sub-sockets (C08_utls_init/connect/server/accept/close_balanced: for every answer of the sub-transports the contract 'close "
              "what holds resources, only destroy what failed, never use a dead socket' is kept and a failed call holds nothing; unit_utls). "
              "The other transports' internal ladders (btcp, btls, ux, tconnect, ctl, dns) are exercised exhaustively over single failures "
-             "by sys_life on the real code, not proved; double "
-             "failures and malloc failure are outside (the library aborts on memory exhaustion by design). Axioms: propext, Classical.choice, Quot.sound.",
+             "by sys_life on the real code, not proved; every pair of "
+             "failures is swept in the thorough tier (a seeded sample of pairs in the quick tier); malloc failure is outside (the library "
+             "aborts on memory exhaustion by design). Axioms: propext, Classical.choice, Quot.sound.",
         technique="Lean 4 proofs over all failure scripts of the xcm.c ladders + differential correspondence + exhaustive single-fault injection on the real library",
         ref="DESIGN.md §5 C08"),
     "C15": dict(
@@ -272,16 +273,16 @@ CLAIMED = {
              "REGENERATED from the source on every run: every poll/ppoll/select/epoll_wait/sleep site of the library either has "
              "timeout 0 or lives in socket_wait / xcm_dns_resolve_sync (C05_wait_sites), every descriptor is created with "
              "SOCK_NONBLOCK (C05_sock_sites_nonblocking), and every call of a blocking helper is guarded by is_blocking except "
-             "the two xcm_dns_resolve_sync calls in xcm_tp_btcp.c (C05_helper_calls_partial; the full statement is refuted by "
-             "C05_helper_calls_counterexample = known finding F-05a). Tie: unit_api (real xcm.c over scripted transport/poll, "
+             "the xcm_dns_resolve_sync call in btcp_server, which only xcm_server(_a) reaches (C05_helper_calls_guarded; before the "
+             "repair F-05a the table also held an unguarded call in begin_connect and the theorem needed that site carved out). Tie: unit_api (real xcm.c over scripted transport/poll, "
              "call traces compared with the model) and sys_nowait: real sockets of all seven transports in the phases idle, "
              "back-pressure, peer closed, server idle, TLS handshake against a mute peer, SYN_SENT against a full accept queue, "
              "resolving against a mute resolver, with link-time wrappers reporting any wait with a non-zero timeout, any sleep, "
              "and any I/O on a blocking descriptor during an API call.",
         note="proof-partial in one respect: the guard analysis of call sites is a syntactic translator (extract/ext_sites.py); "
              "what the transports do below xcm.c is covered by the table of wait sites plus the wrapped runs, not by a model of "
-             "every transport function. Known finding F-05a (named xcm.local_addr resolved synchronously) is reported as "
-             "KNOWN-FINDING. OpenSSL/c-ares internals are assumed not to sleep on non-blocking descriptors.",
+             "every transport function. Found and fixed here: F-05a (a DNS name in xcm.local_addr was resolved synchronously on a "
+             "non-blocking connect; now asynchronous, 7230325). OpenSSL/c-ares internals are assumed not to sleep on non-blocking descriptors.",
         technique="Lean 4 proofs (wrapper model; decide over site tables regenerated from source) + differential correspondence + wrapped live-socket runs",
         ref="DESIGN.md §5 C05"),
     "C14": dict(
